@@ -35,6 +35,7 @@ def _events(st, tier):
     ev = ["fwd_a", "freeze", "to_cpu", "deepcopy", "sd"]
     if st.cfg["a"]:
         ev.append("calib_a")
+        ev.append("calib_s")  # default Calibration(): streamlining may switch some activation qtypes to None
         if tier == "thorough":
             ev.append("calib_b")
     return ev
@@ -48,8 +49,8 @@ def _apply(st, ev):
     if ev == "fwd_a":
         with torch.no_grad():
             m(models.probe_input(cfg["model"], cfg["dt"], 0))
-    elif ev in ("calib_a", "calib_b"):
-        with torch.no_grad(), Calibration(streamline=False):
+    elif ev in ("calib_a", "calib_b", "calib_s"):
+        with torch.no_grad(), Calibration(streamline=(ev == "calib_s")):
             m(models.probe_input(cfg["model"], cfg["dt"], 0 if ev == "calib_a" else 1))
     elif ev == "freeze":
         freeze(m)
